@@ -53,6 +53,14 @@ def frameHandle : List String → Option String
     match ofHex h, parseSizes sizes with
     | some b, some ks => some (renderDecoded (decodeStreamChunked (chunkBy ks b)))
     | _, _ => some "bad-op"
+  | "rdx.run" :: n :: toks =>
+    -- Unserializer._read_exact(n) against the chunks: `ok <hex> rest=<hex of what is left>` | `err <got>`
+    match n.toNat?, parseHexList toks with
+    | some n, some chunks =>
+      match unserReadExact chunks n with
+      | .ok (b, rest) => some s!"ok {toHex b} rest={toHex rest.flatten}"
+      | .error got => some s!"err {got}"
+    | _, _ => some "bad-op"
   | "frame.chunks" :: toks =>
     match parseHexList toks with
     | some chunks => some (renderDecoded (decodeStreamChunked chunks))
